@@ -37,10 +37,10 @@ CFG = {
                 rule="same grammar with side-effecting atoms between yields; the full event log (every atom/condition/yielded-expression "
                      "evaluation interleaved with the consumer's MoveNext/Current marks, incl. the call of the generator function itself and "
                      "advances after exhaustion) is compared, so every truncation point of the consumer is covered by prefix closure"),
-    "C03": dict(feats={"vars", "closures", "postyield", "range", "redecl", "declinit"}, findings=["F1", "F2", "F3", "F4", "F18", "F24"], corpus=["control", "scope"],
+    "C03": dict(feats={"vars", "closures", "postyield", "range", "redecl", "declinit", "consumer"}, findings=["F1", "F2", "F3", "F4", "F18", "F24"], corpus=["control", "scope"],
                 rule="bodies that declare, shadow (nested blocks, branches, loop bodies, case clauses), increment, yield and log integer locals "
                      "and create closures that update them, partially redeclare them ('x, n := ...' in the block that declared x), declare them in for-initialisers ('for x := ...; c; x++', also shadowing an outer x), at random positions relative to yields, and range loops in all variable forms (k, v := / k, v = over "
-                     "variables declared before the loop, read again after it); values observed through tr.U events and yielded values"),
+                     "variables declared before the loop, read again after it) incl. range over library generators ('for w = range g' / 'for w := range g'); values observed through tr.U events and yielded values"),
     "C18": dict(feats={"panic", "postyield", "yieldfrom"}, findings=["F1", "F2"], corpus=["control"],
                 rule="bodies with panicking atoms (tape-steered) at random positions incl. loops, switch cases and delegates; which consumer call "
                      "panics, with which value, and everything delivered before are compared with the reference rendering"),
